@@ -26,7 +26,7 @@ FEATURES = {'ver.between-2-and-3': 'for a non-official version strictly between 
                                    'reader accept 3.0-only data while both writers and the JSON reader refuse it'}
 EXHAUSTIVE_CLAIM = True
 
-VERSIONS = [None, '2.0', '3.0', '2.5', '3.0.0', '1.0', '4.0', '2.0.1', '2.0a']
+VERSIONS = [None, '2.0', '3.0', '2.5', '3.0.0', '1.0', '4.0', '2.0.1', '2.0a', '2.0.0', '2']
 INNER = ['grid', '3.0', [], [['x', []]], [[['x', ['num', 1.0]]]]]
 V3_VALUES = {
     'na': ['na'], 'list': ['list', [['num', 1.0]]], 'dict': ['dict', [['k', ['str', 'v']]]], 'grid': INNER,
@@ -51,7 +51,7 @@ def refuses(label):
     """reference decision for a declared label"""
     if label in ('3.0', '3.0.0', '4.0'):
         return False
-    if label in ('2.0', '1.0'):
+    if label in ('2.0', '1.0', '2.0.0', '2'):
         return True
     if label in ('2.5', '2.0.1', '2.0a'):
         return None     # free, but must be the same at all five decision points
@@ -292,6 +292,7 @@ def check_history(case, excl=frozenset()):
         raise Violation('no-auto-upgrade', dict(case, step='ctor'), 'unlabelled grid holds 3.0-only data but reports %s' % g.version, ('ctor',))
     decisions = {}
     sources = []
+    bypassed = False
     decide_writers_readers(g, case, 'ctor', excl, decisions)
     if grid_decision is not None and decisions and decisions.get('zinc-writer') != grid_decision:
         raise Violation('decisions-differ', dict(case, step='ctor'), 'grid accepted=%r but wire decisions %r' % (grid_decision, decisions))
@@ -301,6 +302,7 @@ def check_history(case, excl=frozenset()):
         v3 = any(is_v3(x) for x in vals)
         used_v3 = used_v3 or v3
         bypass = op[0] in BYPASS
+        bypassed = bypassed or (bypass and v3)
         try:
             derived = apply_op(g, op)
             outcome = 'ok'
@@ -318,6 +320,11 @@ def check_history(case, excl=frozenset()):
             if ref is None and 'ver.between-2-and-3' in excl:
                 return used_v3
             sources.append((source, source_model))
+            dm = model.grid_to_model(g)
+            if not bypassed and content_has_v3(dm) and refuses(dm[1]) is True:
+                raise Violation('derived-grid-mislabelled', dict(case, step=step),
+                                'the grid derived by %s is labelled %s but carries 3.0-only data (its source was %s)' % (
+                                    op[0], dm[1], source_model[1]), (op[0],))
         after = model.grid_to_model(g)
         for sg, sm in sources:
             # (rows are shared between a grid and its slices by design; the label of the source must not move)
